@@ -220,6 +220,8 @@ def trr_cases(draw):
         # velocities / forces written at other intervals than positions (nstvout, nstfout != nstxout): frames of different size
         c["v_on"] = [draw(st.booleans()) for _ in range(nf)]
         c["f_on"] = [draw(st.booleans()) for _ in range(nf)]
+    if draw(st.sampled_from([False, False, True])):
+        c["mats"] = [[draw(st.booleans()), draw(st.booleans()), draw(st.booleans())] for _ in range(nf)]
     return c
 
 
@@ -232,6 +234,8 @@ def body_trr(rec, c):
         v_on = c.get("v_on") or [c["with_v"]] * len(c["frames"])
         f_on = c.get("f_on") or [c["with_f"]] * len(c["frames"])
         mixed = len(set(zip(v_on, f_on))) > 1
+        # which of the box / virial / pressure matrices a frame carries (energy-file style output options; a frame may lack the box)
+        mats = c.get("mats") or [[True, False, False]] * len(c["frames"])
         rec.case(key=c, nontrivial=len(c["frames"]) >= 2, sample={"natoms": n, "frames": len(c["frames"]), "k": k, "velocities_in_frame": v_on, "forces_in_frame": f_on} if mixed and len(rec.samples) < 1 else None,
                  classes=["trr", f"trr:frames={len(c['frames'])}"] + (["trr:frames-of-different-size"] if mixed else [])
                  + (["trr:frames-of-different-size-before-frame-k"] if len(set(zip(v_on[: k + 1], f_on[: k + 1]))) > 1 else []))
@@ -241,8 +245,9 @@ def body_trr(rec, c):
                 path = os.path.join(d, f"t_{'b' if endian == '>' else 'l'}_{'d' if double else 's'}.trr")
                 with open(path, "wb") as fh:
                     for i, f in enumerate(c["frames"]):
-                        raw, _ = trrref.encode_frame(n, i, 0.002 * i, 0.0, box=f["box"], x=f["x"], v=f["v"] if v_on[i] else None,
-                                                     f=f["x"] if f_on[i] else None, endian=endian, double=double)
+                        raw, _ = trrref.encode_frame(n, i, 0.002 * i, 0.0, box=f["box"] if mats[i][0] else None, x=f["x"], v=f["v"] if v_on[i] else None,
+                                                     f=f["x"] if f_on[i] else None, endian=endian, double=double,
+                                                     vir=[-(q + 1) * 1.5 - i for q in range(9)] if mats[i][1] else None, pres=[(q + 1) * 0.25 + i for q in range(9)] if mats[i][2] else None)
                         fh.write(raw)
                 try:
                     header, data = read_trr_frame(path, k)
@@ -256,7 +261,15 @@ def body_trr(rec, c):
                     rec.check(np.array_equal(data["v"], np.array(trrref.as_stored(fr["v"], endian, double)).reshape(n, 3)), "trr:velocities", f"endian={endian} double={double}")
                 else:
                     rec.check("v" not in data, "trr:velocities-invented")
-                rec.check(np.array_equal(data["box"], np.array(trrref.as_stored(fr["box"], endian, double)).reshape(3, 3)), "trr:box")
+                if mats[k][0]:
+                    rec.check("box" in data and np.array_equal(data["box"], np.array(trrref.as_stored(fr["box"], endian, double)).reshape(3, 3)), "trr:box")
+                else:
+                    rec.check("box" not in data, "trr:box-invented", f"frame {k} has no box; decoded {data.get('box')}")
+                for key, on, vals in (("vir", mats[k][1], [-(q + 1) * 1.5 - k for q in range(9)]), ("pres", mats[k][2], [(q + 1) * 0.25 + k for q in range(9)])):
+                    if on:
+                        rec.check(key in data and np.array_equal(data[key], np.array(trrref.as_stored(vals, endian, double)).reshape(3, 3)), f"trr:{key}", f"frame {k} matrices {mats[k]}: {data.get(key)}")
+                    else:
+                        rec.check(key not in data, f"trr:{key}-invented", f"frame {k} matrices {mats[k]}")
                 rec.check(header["natoms"] == n and header["step"] == k and header["double"] == double and header["endian"] == endian, "trr:header", str({x: header[x] for x in ("natoms", "step", "double", "endian")}))
                 decoded[(endian, double)] = data
         # both byte orders decode identically at equal precision
@@ -264,7 +277,7 @@ def body_trr(rec, c):
             a, b = decoded[(">", double)], decoded[("<", double)]
             rec.check(all(np.array_equal(a[key], b[key]) for key in a), "trr:byte-orders-decode-differently", f"double={double}")
         # engine: frame k of a trr -> g96
-        if v_on[k]:
+        if v_on[k] and mats[k][0]:
             eng = GromacsEngine.__new__(GromacsEngine)
             eng.ext = "g96"
             lab = [f"{1:>5d} {'RES':<5s} {'A':<5s}{i + 1:>7d}" for i in range(n)]
@@ -312,7 +325,8 @@ def mdp_cases(draw):
     nset = draw(st.integers(0, 5))
     settings = {}
     for _ in range(nset):
-        settings[draw(st.sampled_from(KEYS))] = draw(st.sampled_from(["0", "25", "yes", "300.0", "-1", "0.5 0.5"]))
+        # (the engines pass numbers as numbers: nsteps = 0 for a velocity-generation run, nstvout = 0, ...)
+        settings[draw(st.sampled_from(KEYS))] = draw(st.sampled_from(["0", "25", "yes", "300.0", "-1", "0.5 0.5", 0, 0.0, 5000, 0.002, 1]))
     return {"lines": lines, "settings": settings}
 
 
